@@ -34,8 +34,10 @@ def defining_of(prog, outs):
 def run(ctx):
     rng = ctx.rng('progs')
     n = 70 if ctx.tier == 'quick' else 800
-    for k in range(n):
-        if k % 3 == 2:
+    for k in range(n + 1):
+        if k == n:
+            prog, flavor = apistream.d22_witness(), 'D22-witness'
+        elif k % 3 == 2:
             prog, flavor = apistream.gen_multi_lf(rng, naming='distinct')
         else:
             prog, flavor = apistream.gen_program(rng, flavor=rng.choice(['valid', 'rejects', 'queries', 'mixed']))
@@ -52,7 +54,10 @@ def run(ctx):
         ctx.count('K-order', key=(k, len(d.records)))
         ctx.stat('K-order', 'records', len(d.records))
         ctx.stat('K-order', 'logical_files', len(d.logical_files()))
-        judge.check_order(ctx, d, det, headers_of(prog, r['outs']), defining_of(prog, r['outs']))
+        # D22: a rejected add_origin that was the first call for its ORIGIN set leaves the empty set registered, and its
+        # position decides which origin the library treats as the defining one
+        d22 = 'D22-empty-set-position' if (judge.rejected_first_for_set(prog, r['outs'], only='origin') and r['agree']) else None
+        judge.check_order(ctx, d, det, headers_of(prog, r['outs']), defining_of(prog, r['outs']), defining_finding=d22)
         judge.check_identity_refs(ctx, d, det, check_origins=False, check_unique=False)
         if k % 13 == 0:
             ctx.sample({'stream': 'K-order', 'flavor': flavor,
